@@ -229,7 +229,12 @@ def make_dir(rng, ctx, root, same_stem=False, carry=False, probe=None, full=Fals
                 base = build_valid(rng, fmt, ctx)
                 data = damage(rng, base, rng.choice(['truncate', 'flip']))
                 if probe(fmt, data) == 'failed':
-                    files.append((rng.choice(['0fail_', 'zzfail_']) + fmt + EXT[fmt][0], 'fails-' + fmt, data))
+                    fname = rng.choice(['0fail_', 'zzfail_']) + fmt + EXT[fmt][0]
+                    files.append((fname, 'fails-' + fmt, data))
+                    # and a VALID neighbour whose name continues the failing file's stem with '_' (BASIC_FILE.dlis /
+                    # BASIC_FILE_WITH_....dlis in the repository's own data): what a failing conversion cleans up must be its own
+                    small = min((build_valid(rng, fmt, ctx) for _ in range(4)), key=len)
+                    files.append((os.path.splitext(fname)[0] + '_more' + EXT[fmt][0], 'valid-' + fmt, small))
                     break
     if carry:
         # a file whose X axis is DEPT, then (alphabetically and by size) a file with an ordinary channel called DEPT
